@@ -65,6 +65,7 @@ DirectCmds == <<[c |-> "election-win", a |-> "self"]>> \o
               [i \in 1..(Len(NodeSeq) - 1) |-> [c |-> "secoundary", a |-> NodeSeq[i + 1]]]
 
 InitS == [role |-> [n \in Nodes |-> IF Formation = "join" \/ n = NodeSeq[1] THEN "Primary" ELSE "StartingUp"],
+          pid |-> Pid,                          \* start time of the running incarnation of every node
           alive |-> [n \in Nodes |-> TRUE],
           supdead |-> [n \in Nodes |-> FALSE],
           mem |-> [n \in Nodes |-> [m \in Nodes |-> "-"]],
@@ -76,6 +77,7 @@ InitS == [role |-> [n \in Nodes |-> IF Formation = "join" \/ n = NodeSeq[1] THEN
           link |-> [l \in Pairs |-> NoLink],
           thr |-> <<>>,                         \* function origin -> parked thread
           lno |-> 0,
+          pendinit |-> {},                      \* restarted nodes whose start_inital_election is still to come
           relinked |-> FALSE]
 
 Init ==
@@ -123,7 +125,7 @@ Park(T, o, n, site, id, start, c) ==
 StartElection(T, n, o, c) ==
   IF Cardinality(Members(T, n)) <= 1
   THEN Finish(Win(T, n), n, o, c)                                       \* "single"
-  ELSE Park(EnqRepl(T, n, "cand", n, Pid[n]), o, n, "election.wait_registered", FreshId(T), 0, c)
+  ELSE Park(EnqRepl(T, n, "cand", n, T.pid[n]), o, n, "election.wait_registered", FreshId(T), 0, c)
 
 (* start_new_election *)
 NewElection(T, n, o, c) == StartElection([T EXCEPT !.role[n] = "StartingUp"], n, o, c)
@@ -205,7 +207,7 @@ Connect(T, n, N, role, demote, handshake, order, selfjoin) ==
   IN [T1 EXCEPT !.mem[n] = mem1,
                 !.snd[n] = @ \cup {N},
                 !.lno = @ + 1,
-                !.relinked = @ \/ T.link[<<n, N>>].st # "none",
+                !.relinked = @ \/ T.link[<<n, N>>].st = "open",      \* (a closed connection of an earlier life is replaced)
                 !.link[<<n, N>>] = [st |-> "open", orphan |-> FALSE, q |-> q0, rsp |-> <<>>, tag |-> <<>>,
                                     sess |-> FALSE, no |-> T.lno + 1]]
 
@@ -216,8 +218,12 @@ SupStep(T, n, order) ==
       N == c.a
   IN IF T.supdead[n] THEN T0
      ELSE CASE c.c = "secoundary" ->
-                 IF T0.mem[n][N] # "-" THEN [T0 EXCEPT !.supdead[n] = TRUE]      \* panic!("Re-adding a secoundary")
-                 ELSE Connect(T0, n, N, "S", FALSE, <<Auth, Line("set-primary", "", n, 0, 0)>>, order, TRUE)
+                 \* a node that is still listed joins again: the stale entry is replaced (repaired: before,
+                 \* the supervisor panicked here -- "Re-adding a secoundary" -- and was gone for good)
+                 LET T1 == IF T0.mem[n][N] = "-" THEN T0
+                           ELSE [T0 EXCEPT !.mem[n][N] = "-", !.snd[n] = @ \ {N},
+                                           !.link[<<n, N>>].orphan = @ \/ (N \in T0.snd[n])]
+                 IN Connect(T1, n, N, "S", FALSE, <<Auth, Line("set-primary", "", n, 0, 0)>>, order, TRUE)
             [] c.c = "primary" ->
                  IF T0.mem[n][N] = "-"
                  THEN Connect(T0, n, N, "P", TRUE,
@@ -248,8 +254,8 @@ SetPrimary(T, y, X, l, rp, o) ==
 
 Eval(T, y, pid, name, rp, l, o) ==
   LET c == [k |-> "eval", l |-> l, rp |-> rp, a |-> name, b |-> pid] IN
-  IF pid = Pid[y] THEN Finish(T, y, o, c)
-  ELSE IF pid > Pid[y] THEN StartElection(T, y, o, c)                    \* the candidate is younger
+  IF pid = T.pid[y] THEN Finish(T, y, o, c)
+  ELSE IF pid > T.pid[y] THEN StartElection(T, y, o, c)                  \* the candidate is younger
   ELSE Finish([EnqRepl(T, y, "alive", y, 0) EXCEPT !.role[y] = "Secoundary"], y, o, c)
 
 DeliverStep(T, x, y) ==
@@ -294,11 +300,33 @@ Kill(T, n) ==
       ELSE IF l[2] = n /\ T1.link[l].st = "open" THEN [T1.link[l] EXCEPT !.q = <<>>, !.rsp = <<>>]
       ELSE T1.link[l]])]
 
+(* ---------------- a node (re)starts and asks every live node to let it join ---------------- *)
+RECURSIVE AskJoin(_, _, _)
+AskJoin(T, k, i) ==      \* `auth; join k' on a connection of its own to every other live node, in order
+  IF i > Len(NodeSeq) THEN T
+  ELSE LET y == NodeSeq[i]
+           T1 == IF y = k \/ ~T.alive[y] \/ T.role[y] = "Secoundary" THEN T      \* "Ignoring join on secondary"
+                 ELSE NewElection(EnqSup(T, y, "secoundary", k), y, Origin("join", k, y), NoCont)
+       IN AskJoin(T1, k, i + 1)
+
+Restart(T, k, newpid) ==
+  LET T1 == IF T.alive[k] THEN Kill(T, k) ELSE T
+      \* a new process: nothing in memory, role StartingUp; threads of the old process are gone
+      T2 == [T1 EXCEPT !.alive[k] = TRUE, !.role[k] = "StartingUp", !.supdead[k] = FALSE, !.pid[k] = newpid,
+                       !.mem[k] = [m \in Nodes |-> "-"], !.snd[k] = {}, !.pend[k] = <<>>,
+                       !.replq[k] = <<>>, !.supq[k] = <<>>, !.pendinit = @ \cup {k},
+                       !.thr = TLCEval([o \in {x \in DOMAIN T1.thr : T1.thr[x].node # k} |-> T1.thr[o]]),
+                       \* connections other nodes had dialled to the old process ended with it
+                       !.link = TLCEval([l \in Pairs |-> IF l[2] = k /\ T1.link[l].st = "open"
+                                                          THEN [T1.link[l] EXCEPT !.st = "closed"] ELSE T1.link[l]])]
+  IN AskJoin(T2, k, 1)
+
 ClientStep(T, i) ==
   LET op == Ops[i] IN
   CASE op.op = "auth" -> T
     [] op.op = "force" -> NewElection(T, op.node, "client:" \o ToString(i - 1), NoCont)
     [] op.op = "kill" -> Kill(T, op.node)
+    [] op.op = "restart" -> Restart(T, op.node, op.pid)
 
 (* ---------------- enabledness ---------------- *)
 Busy(T, x, y) == Origin("L", x, y) \in DOMAIN T.thr
@@ -349,10 +377,20 @@ Formed ==
   /\ phase = "form" /\ Quiet(S) /\ \A j \in initi..Len(NodeSeq) : ~Eligible(j)
   /\ phase' = "ops" /\ Log("formed") /\ UNCHANGED <<S, initi, next>>
 
+(* start_inital_election of a restarted node: one second after its start, i.e. once the cluster is *)
+(* quiet again, a node that is still StartingUp runs an election                                  *)
+PendEligible == {k \in S.pendinit : S.alive[k] /\ S.role[k] = "StartingUp"}
+RejoinInit ==
+  /\ phase = "ops" /\ Quiet(S) /\ next <= SeqPrefix + 1
+  /\ \E k \in PendEligible :
+       /\ S' = CloseDrained(StartElection([S EXCEPT !.pendinit = @ \ {k}], k, "init:" \o k, NoCont))
+       /\ Log("init:" \o k)
+  /\ UNCHANGED <<phase, initi, next>>
+
 Client ==
   /\ phase = "ops" /\ next <= Len(Ops)
-  /\ (next <= SeqPrefix => Quiet(S))
-  /\ S' = CloseDrained(ClientStep(S, next))
+  /\ (next <= SeqPrefix => (Quiet(S) /\ PendEligible = {}))
+  /\ S' = CloseDrained(ClientStep([S EXCEPT !.pendinit = {}], next))
   /\ next' = next + 1
   /\ Log("client:" \o ToString(next - 1))
   /\ UNCHANGED <<phase, initi>>
@@ -360,7 +398,7 @@ Client ==
 Next == \/ \E n \in Nodes : Sup(n) \/ Repl(n)
         \/ \E l \in Pairs : Deliver(l) \/ Reply(l)
         \/ \E o \in DOMAIN S.thr : Tick(o)
-        \/ InitElect \/ Formed \/ Client
+        \/ InitElect \/ Formed \/ Client \/ RejoinInit
 
 Spec == Init /\ [][Next]_vars /\ WF_vars(Next)
 
@@ -368,7 +406,7 @@ Spec == Init /\ [][Next]_vars /\ WF_vars(Next)
 AliveN == {n \in Nodes : S.alive[n]}
 Prim == {n \in AliveN : S.role[n] = "Primary"}
 View(n) == {m \in Nodes : S.mem[n][m] = "P"}
-Oldest(p) == \A n \in AliveN : Pid[p] <= Pid[n]
+Oldest(p) == \A n \in AliveN : S.pid[p] <= S.pid[n]
 Settled == \A n \in AliveN : S.role[n] \in {"Primary", "Secoundary"}
 GoodOutcome == /\ Cardinality(Prim) = 1
                /\ \A p \in Prim : Oldest(p) /\ (\A n \in AliveN \ {p} : S.role[n] = "Secoundary")
@@ -380,8 +418,8 @@ Mode == IF GoodOutcome THEN "good"
         ELSE IF \E p \in Prim : ~Oldest(p) THEN "wrong-primary"
         ELSE "stale-view"
 
-AllDone == Quiet(S) /\ phase = "ops" /\ next > Len(Ops)
-AtRest == Quiet(S) /\ (phase = "ops" \/ \A j \in initi..Len(NodeSeq) : ~Eligible(j))
+AllDone == Quiet(S) /\ phase = "ops" /\ next > Len(Ops) /\ PendEligible = {}
+AtRest == Quiet(S) /\ PendEligible = {} /\ (phase = "ops" \/ \A j \in initi..Len(NodeSeq) : ~Eligible(j))
 
 (* what holds in the code as it is (the recorded findings are the other modes) *)
 NeverTwoPrimaries == AtRest => Mode # "two-primaries"
